@@ -8,6 +8,8 @@
 import CffVerif.Sched.Simple
 import CffVerif.Sched.LogInv
 import CffVerif.Sched.ReportInv
+import CffVerif.Sched.Progress
+import CffVerif.Sched.Measure
 
 namespace Sched
 
@@ -153,6 +155,107 @@ example :
       [.callerSend, .loopEnq, .callerSend, .loopEnq, .loopDispatch 0, .workerDecide 0,
        .workerEnd 0 .ok false, .workerPost 0, .loopDispatch 0, .loopTick] = some s
       ∧ s.log.getLast? = some (Ev.report { pending := 2, ready := 0, waiting := 0, idle := 0, concurrency := 1 }) := by
+  decide
+
+
+/-! ### C05 — termination, C06 — no goroutine leak -/
+
+def Act.isTick : Act → Bool
+  | .loopTick => true
+  | _ => false
+
+/-- **C05 progress.** From every reachable state that is not final — whatever the graph, the failure,
+    Goexit and cancellation pattern, `N ≥ 1`, mode, emitter — some action other than the ticker is
+    enabled (a running body counts as able to end: the premise that user functions return). In
+    particular no reachable state has the caller blocked forever in `Enqueue` or `Wait`. -/
+theorem C05_progress (c : Cfg) (hw : c.wiring = Wiring.std) (hwf : WfCfg c)
+    (acts : List Act) (s : State) (hr : run c (init c) acts = some s) (hnf : Final s = false) :
+    ∃ a, a ≠ Act.loopTick ∧ (step c s a).isSome = true :=
+  progress hw hwf (reach_run hw hwf acts s hr) hnf
+
+/-- **C05 measure.** Every non-tick action strictly decreases the natural number `mu`. -/
+theorem C05_measure (c : Cfg) (hw : c.wiring = Wiring.std) (hwf : WfCfg c)
+    (acts : List Act) (s s' : State) (a : Act) (hr : run c (init c) acts = some s)
+    (hs : step c s a = some s') (ha : a ≠ .loopTick) : mu c s' < mu c s :=
+  mu_decreases hw hwf (reach_run hw hwf acts s hr) hs ha
+
+/-- **C05 termination.** Any continuation of a reachable state that contains no tick has at most
+    `mu c s` actions: there is no infinite execution in which the scheduler keeps working
+    without finishing. -/
+theorem C05_terminates (c : Cfg) (hw : c.wiring = Wiring.std) (hwf : WfCfg c)
+    (acts : List Act) (s : State) (hr : run c (init c) acts = some s) :
+    ∀ (more : List Act) (s' : State), (∀ a ∈ more, a.isTick = false) → run c s more = some s' →
+      more.length + mu c s' ≤ mu c s := by
+  intro more
+  induction more generalizing acts s with
+  | nil => intro s' _ h; simp [run] at h; subst h; simp
+  | cons a as ih =>
+    intro s' hnt h
+    simp only [run] at h
+    cases hs : step c s a with
+    | none => simp [hs] at h
+    | some s1 =>
+      simp [hs] at h
+      have ha : a ≠ .loopTick := by
+        intro e; have := hnt a (by simp); simp [e, Act.isTick] at this
+      have hdec := C05_measure c hw hwf acts s s1 a hr hs ha
+      have hr1 : run c (init c) (acts ++ [a]) = some s1 := by
+        have : ∀ (xs : List Act) (t : State), run c t (xs ++ [a]) = (run c t xs).bind (fun u => step c u a) := by
+          intro xs
+          induction xs with
+          | nil => intro t; simp [run]
+          | cons x xs ihx =>
+            intro t; simp only [List.cons_append, run]
+            cases step c t x with
+            | none => simp
+            | some u => simp [ihx]
+        rw [this, hr]; simp [hs]
+      have := ih (acts ++ [a]) s1 hr1 s' (fun b hb => hnt b (by simp [hb])) h
+      simp; omega
+
+/-- **C06.** A reachable state in which nothing but the ticker can happen is `Final`: `Wait` has
+    returned, the loop goroutine has exited and **every worker goroutine has exited** — after
+    success, fail-fast exit, ContinueOnError, Goexit-ing jobs, cancellation, or `Wait` having
+    returned early through its context arm.  With `C05_terminates`, every maximal execution ends
+    there, so no scheduler goroutine is left behind. -/
+theorem C06_no_stuck_goroutine (c : Cfg) (hw : c.wiring = Wiring.std) (hwf : WfCfg c)
+    (acts : List Act) (s : State) (hr : run c (init c) acts = some s)
+    (hstuck : ∀ a, a ≠ Act.loopTick → step c s a = none) :
+    s.caller.ret.isSome = true ∧ s.loop.phase = .exited ∧ ∀ x ∈ s.ws, x = W.exited := by
+  cases hf : Final s with
+  | false =>
+    obtain ⟨a, ha, hen⟩ := C05_progress c hw hwf acts s hr hf
+    rw [hstuck a ha] at hen; simp at hen
+  | true =>
+    simp only [Final, Bool.and_eq_true, beq_iff_eq, List.all_eq_true] at hf
+    exact ⟨hf.1.1, hf.1.2, hf.2⟩
+
+/-- The invariant behind C06: the loop never has more jobs out than workers, so results waiting
+    in `donec` plus busy workers never exceed `cap(donec) = N` and a worker can always post. -/
+theorem C06_post_never_blocks (c : Cfg) (hw : c.wiring = Wiring.std) (hwf : WfCfg c)
+    (acts : List Act) (s : State) (hr : run c (init c) acts = some s) :
+    s.ws.countP W.busy + s.donec.length ≤ c.N := by
+  have R := reach_run hw hwf acts s hr
+  have h1 := R.i1.ongoing
+  have h2 := R.i1.gate
+  omega
+
+/-- Negation witness (defect F1 of the unfixed scheduler): without the dispatch gate, N = 2 and four
+    independent failing jobs in fail-fast mode reach a state where the caller has returned, the
+    loop has exited, and a worker is blocked forever posting to the full `donec`. -/
+example :
+    let c : Cfg := { N := 2, coe := false, emit := false, deps := [[], [], [], []],
+                     wiring := { gateDispatch := false } }
+    ∃ s, run c (init c)
+      [.callerSend, .loopEnq, .callerSend, .loopEnq, .callerSend, .loopEnq, .callerSend, .loopEnq, .callerClose,
+       .loopDispatch 0, .loopDispatch 1, .workerDecide 0, .workerDecide 1,
+       .workerEnd 0 (.fail 0) false, .workerEnd 1 (.fail 1) false, .workerPost 0, .workerPost 1,
+       .loopDispatch 0, .loopDispatch 1, .workerDecide 0, .workerDecide 1,
+       .workerEnd 0 (.fail 2) false, .workerEnd 1 (.fail 3) false,
+       .loopResult, .loopClose, .callerRetFin, .workerPost 0] = some s
+      ∧ s.caller.ret = some [.fail 0] ∧ s.loop.phase = .exited
+      ∧ s.ws = [.idle, .posting 3 (.fail 3)] ∧ s.donec.length = 2
+      ∧ step c s (.workerPost 1) = none := by
   decide
 
 end Sched
